@@ -481,6 +481,7 @@ func (db *DB) doProcessIterations(iterations []*iteration) {
 	for i, it := range iterations {
 		remainingIterations[i] = it
 	}
+	iterationErrors := make(map[int]error)
 
 	combinedOnValue := func(dims bytemap.ByteMap, vals []encoding.Sequence) (bool, error) {
 		more := false
@@ -494,8 +495,13 @@ func (db *DB) doProcessIterations(iterations []*iteration) {
 			}
 			itMore, err := it.onValue(dims, itVals)
 			if err != nil {
+				// The error (e.g. an expired deadline) is this iteration's own: it
+				// gets it as its result and stops receiving rows, the others that
+				// share the scan carry on.
 				it.t.log.Errorf("Error while iterating: %v", err)
-				return false, err
+				iterationErrors[i] = err
+				delete(remainingIterations, i)
+				continue
 			}
 			if !itMore {
 				// This iteration doesn't want any more data, stop feeding it
@@ -517,9 +523,13 @@ func (db *DB) doProcessIterations(iterations []*iteration) {
 	if err != nil {
 		iterations[0].t.log.Errorf("Got error while iterating: %v", err)
 	}
-	for _, it := range iterations {
+	for i, it := range iterations {
 		it.offsetsCh <- offsetsBySource
-		it.errCh <- err
+		if itErr := iterationErrors[i]; itErr != nil {
+			it.errCh <- itErr
+		} else {
+			it.errCh <- err
+		}
 	}
 }
 
